@@ -3,6 +3,7 @@ import RedisVerif.Props.C03
 import RedisVerif.Model.ShardsClock
 import RedisVerif.Model.Shards7
 import RedisVerif.Model.Script7
+import RedisVerif.Model.Dispatch
 import RedisVerif.Driver.C01
 
 /-
@@ -14,6 +15,8 @@ import RedisVerif.Driver.C01
     TNEW <N> <carries: 7 × 0/1> <n> (<key> <rs|-> <rb>)*   → ok   timed stream (per-shard clocks, expiry);
           carries = which message kinds (generic fastGet fastSet pooledGet pooledSet batchGet batchSet) carry the time
     T <now-ms> SET|SETPX|SETEX|GET|EXISTS|DBSIZE|FGET|PGET|FSET|PSET|BGET|BSET|MGET|MSET args…  → canonical reply
+    ENTRYPOINTS                                     → the model's table of mailbox-reaching entry points (`Model/Dispatch.lean`)
+    DISPATCH                                        → the entry points the connection handler dispatches into
     M7NEW <N> <n> (<key> <route>)*                  → ok     the sharding model over the M7 REFERENCE executor
           (`Model/Shards7.lean`: every command of `Model/Redis.lean`, per-shard sweeps = set_time)
     M7 <now-ms> <OP args… in the C01 line syntax>   → reply in the C01 reply syntax (KEYS sorted)
@@ -256,6 +259,8 @@ def showReply7 (c : Redis.Cmd) (r : Reply) : String :=
 
 def step (d : DState) (line : String) : DState × String :=
   match tokens line with
+  | ["ENTRYPOINTS"] => (d, ",".intercalate entryPointNames)
+  | ["DISPATCH"] => (d, ",".intercalate dispatchTargets)
   | "M7NEW" :: _ =>
     match runP parseM7New line with
     | some (n, tbl) =>
